@@ -10,6 +10,7 @@ package diff
 //@   ensures sides-literal: (result.1 == nil && istype(result.0, "*diff.LiteralDiff")) ==> (result.0.(*diff.LiteralDiff).old == old && result.0.(*diff.LiteralDiff).new == new)
 //@   ensures sides-slice: (result.1 == nil && istype(result.0, "*diff.SliceableDiff")) ==> (result.0.(*diff.SliceableDiff).old == old && result.0.(*diff.SliceableDiff).new == new)
 //@   ensures sides-mapping: (result.1 == nil && istype(result.0, "*diff.MappingDiff")) ==> (result.0.(*diff.MappingDiff).old == old && result.0.(*diff.MappingDiff).new == new)
+//@   ensures dicts-give-mapping-diffs: (result.1 == nil && result.0 != nil && istype(old, "*starlark.Dict") && istype(new, "*starlark.Dict")) ==> istype(result.0, "*diff.MappingDiff")
 //@   ensures kinds: (result.1 == nil && result.0 != nil) ==> (istype(result.0, "*diff.LiteralDiff") || istype(result.0, "*diff.SliceableDiff") || istype(result.0, "*diff.MappingDiff"))
 //@   modifies heap
 
